@@ -37,6 +37,8 @@ pub struct WorldCfg {
     /// object names of the linker list are packed at the very end of a mapping that is followed
     /// by unmapped memory (a 256-byte read of such a name comes back short)
     pub names_at_end: bool,
+    /// some libraries get a reserved gap between their text and data mappings
+    pub lib_gaps: bool,
 }
 
 impl Default for WorldCfg {
@@ -52,6 +54,7 @@ impl Default for WorldCfg {
             exe_name: "/usr/bin/app",
             alt_chain: false,
             names_at_end: false,
+            lib_gaps: false,
         }
     }
 }
@@ -116,15 +119,16 @@ pub struct Built {
     pub anon_next: u64,
 }
 
-fn elf_regions(path: &str, base: u64, img: &ElfImage, inode: u64, mem: &[u8], out: &mut Vec<RegionSpec>) {
+pub fn elf_regions(path: &str, base: u64, img: &ElfImage, inode: u64, mem: &[u8], out: &mut Vec<RegionSpec>) {
+    // (file offset, virtual address, length, permissions)
     let segs = [
-        (0u64, 0x1000u64, "r--p"),
-        (img.text_off, img.text_len, "r-xp"),
-        (img.data_off, 0x1000, "rw-p"),
+        (0u64, 0u64, 0x1000u64, "r--p"),
+        (img.text_off, img.text_off, img.text_len, "r-xp"),
+        (img.data_off, img.data_vaddr, 0x1000, "rw-p"),
     ];
-    for (off, len, perms) in segs {
+    for (off, vaddr, len, perms) in segs {
         out.push(RegionSpec {
-            start: base + off,
+            start: base + vaddr,
             len,
             perms: perms.to_string(),
             offset: off,
@@ -132,6 +136,19 @@ fn elf_regions(path: &str, base: u64, img: &ElfImage, inode: u64, mem: &[u8], ou
             name: B::s(path),
             deleted: false,
             content: Content::Bytes(B(mem[off as usize..(off + len) as usize].to_vec())),
+        });
+    }
+    if img.data_vaddr > img.data_off {
+        // the loader's reserved, inaccessible gap between text and data
+        out.push(RegionSpec {
+            start: base + img.data_off,
+            len: img.data_vaddr - img.data_off,
+            perms: "---p".into(),
+            offset: 0,
+            inode: 0,
+            name: B(Vec::new()),
+            deleted: false,
+            content: Content::Zero,
         });
     }
 }
@@ -149,6 +166,7 @@ pub fn lib_spec(r: &mut Rng, variety: bool, idx: usize) -> ElfSpec {
         with_pt_phdr: r.coin(),
         sections_at_end: false,
         rodata_before_text: false,
+        data_gap_pages: 0,
     };
     if variety {
         match r.below(8) {
@@ -186,6 +204,9 @@ pub fn build_world(r: &mut Rng, cfg: &WorldCfg) -> Built {
         if cfg.alt_chain && i == 0 {
             spec.dt_debug = true;
         }
+        if cfg.lib_gaps && r.chance(1, 3) {
+            spec.data_gap_pages = r.range(1, 3);
+        }
         let img = elfgen::build(&spec);
         let path = format!("/usr/lib/libsim{}.so.{}.{}", i, r.below(4), r.below(30));
         let base = LIB_BASE + i as u64 * 0x100_0000;
@@ -207,6 +228,7 @@ pub fn build_world(r: &mut Rng, cfg: &WorldCfg) -> Built {
         with_pt_phdr: true,
         sections_at_end: false,
         rodata_before_text: false,
+        data_gap_pages: 0,
     };
     let exe = elfgen::build(&exe_spec);
     if cfg.link_map {
@@ -231,11 +253,11 @@ pub fn build_world(r: &mut Rng, cfg: &WorldCfg) -> Built {
                 page[at..at + nb.len()].copy_from_slice(nb);
                 page[at + nb.len()] = 0;
                 page_end = at;
-                entries.push((*base, names_page + at as u64, *base + img.dyn_off));
+                entries.push((*base, names_page + at as u64, *base + img.dyn_vaddr));
             } else {
                 heap[name_off..name_off + nb.len()].copy_from_slice(nb);
                 heap[name_off + nb.len()] = 0;
-                entries.push((*base, HEAP_BASE + name_off as u64, *base + img.dyn_off));
+                entries.push((*base, HEAP_BASE + name_off as u64, *base + img.dyn_vaddr));
                 name_off += nb.len() + 1;
             }
         }
@@ -419,6 +441,7 @@ pub fn build_world(r: &mut Rng, cfg: &WorldCfg) -> Built {
             with_pt_phdr: false,
             sections_at_end: false,
         rodata_before_text: false,
+        data_gap_pages: 0,
         };
         let img = elfgen::build(&spec);
         regions.push(RegionSpec {
